@@ -51,7 +51,8 @@ def one(name, tier):
             return res
         for pid in props:
             # each check gets its own copy of the verif tree?  no: Generated.lean is shared -> serialise per process
-            rc, out = sh([os.path.join(ROOT, "check"), pid, "--tier", tier], cwd=ROOT, env={"VERIF_REPO": wt}, timeout=3600)
+            rc, out = sh([os.path.join(ROOT, "check"), pid, "--tier", tier], cwd=ROOT,
+                         env={"VERIF_REPO": wt, "VERIF_EVIDENCE_DIR": os.path.join(tmp, "evidence")}, timeout=3600)
             line = [ln for ln in out.splitlines() if ln.startswith("VIOLATION")]
             if rc == 1 and line:
                 kind = "caught-tie" if line[0].endswith("no-failing-input-found") else "caught"
